@@ -26,12 +26,12 @@ META = {
         'pero_ocr/document_ocr/page_parser.py:TextlineExtractorSimple.process_page',
     ],
     'bounds': {
-        'quick': '1..2 rectangular regions with symbolic corners x 1..2 detected lines with symbolic 2-point baselines; per (line, region) '
+        'quick': '(regions x lines) in {1x1, 2x1, 1x2}: rectangular regions with symbolic corners, detected lines with symbolic 2-point baselines; per (line, region) '
                  'pair the kernel outcome is chosen by the solver: intersects or not, validity of both polygons, baseline-intersection kind '
                  '(empty / line of symbolic length / 2..3 parts of symbolic lengths / other), outline-intersection kind (polygon / 2..3 '
                  'parts of symbolic areas / other); LayoutExtractor: all 16 combinations of DETECT_REGIONS, DETECT_LINES, MERGE_LINES, '
                  'MULTI_ORIENTATION with a stub detector returning 0..2 lines per orientation',
-        'thorough': '3 regions x 2 lines and 2 regions x 3 lines',
+        'thorough': 'also 2x2, 3x1, 1x3 (the full outcome space of the kernel for one focus pair at a time, the other pairs single-piece)',
     },
     'assumptions': [
         'shapely contract: a baseline whose end points lie in a (convex) rectangle intersects it and its intersection is the baseline itself; '
@@ -45,7 +45,7 @@ META = {
 
 def tasks(tier):
     ts = []
-    shapes = [(1, 1), (2, 1), (1, 2), (2, 2)] if tier == 'quick' else [(1, 1), (2, 1), (1, 2), (2, 2), (3, 2), (2, 3)]
+    shapes = [(1, 1), (2, 1), (1, 2)] if tier == 'quick' else [(1, 1), (2, 1), (1, 2), (2, 2), (3, 1), (1, 3)]
     for nr, nl in shapes:
         # the kernel's outcome space is explored in full for one (line, region) pair at a time (the 'focus'); for the other
         # pairs the intersection is a single piece / polygon and both polygons are valid
@@ -254,7 +254,7 @@ class PairKernel:
             o = self.outcome[(li, ri)]
             if core.branch(o['inside']):
                 # wholly inside a convex region: the intersection is the baseline itself
-                self.result[(li, ri)]['base'] = ('whole', other)
+                self.result[(li, ri)]['base'] = ('whole',)
                 return LineString(other.coords_arr, ('line', id(other.coords_arr)), length=o['len_whole'])
             k = core.choose(4) if (li, ri) == tuple(self.focus) else 1
             if k == 0:
@@ -341,7 +341,12 @@ def _run_assign(H, hl, L, kern, task):
     def case(m_, **kw):
         c = {'mode': 'assign', 'nr': nr, 'nl': nl,
              'regions': [[mv(m_, S(v)) for v in (rx0[r], ry0[r], rx1[r], ry1[r])] for r in range(nr)],
-             'baselines': [[mv(m_, S(bx[l][0])), mv(m_, S(by[l][0])), mv(m_, S(bx[l][1])), mv(m_, S(by[l][1]))] for l in range(nl)]}
+             'baselines': [[mv(m_, S(bx[l][0])), mv(m_, S(by[l][0])), mv(m_, S(bx[l][1])), mv(m_, S(by[l][1]))] for l in range(nl)],
+             'kernel': {'%d_%d' % k: {'intersects': bool(mv(m_, SB(o['intersects']))), 'inside': bool(mv(m_, SB(o['inside']))),
+                                      'base': list(kern.result.get(k, {}).get('base', ())), 'outline': list(kern.result.get(k, {}).get('outline', ())),
+                                      'len': [mv(m_, S(x)) for x in o['len']], 'area': [mv(m_, S(x)) for x in o['area']],
+                                      'len_whole': mv(m_, o['len_whole']) if o['len_whole'] is not None else None} for k, o in outcome.items()},
+             'valid_region': [bool(mv(m_, SB(v))) for v in kern.valid_region], 'valid_textline': [bool(mv(m_, SB(v))) for v in kern.valid_textline]}
         c.update(kw)
         return c
 
@@ -400,8 +405,10 @@ def _run_assign(H, hl, L, kern, task):
                 resu = kern.result[(l, r)]
                 # (a) pre-filter soundness: a pair whose geometries intersect must have been handed to the kernel
                 if (l, r) not in called:
-                    H.claim(z3.Not(o['intersects']), K + 'prefilter-drops-intersecting-pair',
-                            'the bounding-box pre-filter dropped a (line, region) pair whose geometries can intersect', lambda m_: case(m_, line=l, region=r))
+                    # a pair the pre-filter drops can share at most a corner point with the region: a baseline lying wholly
+                    # inside the region is then a single point (which GEOS measures as length 0, never > 2 px)
+                    H.claim(z3.Implies(o['inside'], z3.And(bx[l][0] == bx[l][1], by[l][0] == by[l][1])), K + 'prefilter-drops-inside-line',
+                            'the bounding-box pre-filter dropped a line whose baseline lies wholly inside the region', lambda m_: case(m_, line=l, region=r))
                     if placed:
                         H.fail(K + 'placed-without-check', 'a line was placed without clipping', lambda m_: case(m_))
                     continue
@@ -444,7 +451,7 @@ def _run_assign(H, hl, L, kern, task):
                     if t is not None and t[0] in ('piece', 'multi'):
                         H.claim(z3.Not(z3.And(o['inside'], o['len_whole'].e > 2)), K + 'inside-line-dropped',
                                 'a line whose baseline lies wholly inside the region (longer than 2 px) was not placed there', lambda m_: case(m_, line=l, region=r))
-        H.witness(lambda m_: case(m_, expect=ids))
+        H.witness(lambda m_: case(m_, expect=ids, placed={ln.id: [repr(_tok(ln.baseline) or 'whole'), repr(_tok(ln.polygon) or 'whole')] for reg in regions for ln in reg.lines}))
     return H.result()
 
 
